@@ -77,7 +77,9 @@ TINY = 1e-5
 
 
 def crop_of(k):
-    """crop index 0..95 -> (r0, c0, h, w), keep_coords"""
+    """crop index 0..95 -> (r0, c0, h, w), keep_coords ; an explicit [r0, c0, h, w, keep] is passed through"""
+    if isinstance(k, (list, tuple)):
+        return tuple(k[:4]), bool(k[4])
     keep = bool(k % 2)
     c0 = (k // 2) % 4
     r0 = (k // 8) % 4
@@ -138,6 +140,20 @@ def spaces(tier, seed):
                         c.update({"hi": hi, "offset": offset})
                         hi12.append(c)
                         i += 1
+    # ---- images larger than the internal 100-pixel processing blocks of the filters / WTA / cbca pre-filter: a crop
+    # whose origin is not a multiple of 100 moves every block boundary
+    big = []
+    for (ny, nx), crops in (((44, 230), [[3, 7, 38, 215, 1], [0, 101, 44, 120, 0], [5, 50, 36, 160, 1]]),
+                            ((120, 50), [[7, 3, 108, 44, 1], [13, 0, 105, 50, 0]])):
+        for method, tail in (("sad", ["wta", "median"]), ("sad", ["wta", "bilateral"]), ("sad", ["cbca", "wta"]),
+                             ("census", ["wta", "median5"] if not quick else ["wta", "median"]),
+                             ("sad", ["wta", "vfit", "median", "cross"])):
+            c = _case(i, seed, method, tail, INTERVALS[0], 6, fixed=(3, 1), mask="none")
+            c.update({"ny": ny, "nx": nx, "crops": crops})
+            big.append(c)
+            i += 1
+    out.append({"name": "images larger than the 100-pixel processing blocks (44x230, 120x50)", "level": 1,
+                "cases": big, "chunk": 1})
     out.append({"name": "12-bit radiometry (full range and bright weakly textured), zncc / sad / census without cbca",
                 "level": 1, "cases": hi12})
     plans = [(2, CV_Q, DM_Q, 6)] if quick else [(2, CV_T, DM_T, 16), (3, CV_Q, DM_Q, 8)]
@@ -348,7 +364,7 @@ def run_case(case):
     trivial = 0
     distinct_vals = set()
     for k in case["crops"]:
-        window, keep = crop_of(k)
+        window, keep = ((tuple(k[:4]), bool(k[4])) if isinstance(k, (list, tuple)) else crop_of(k))
         region = C.interior(names, disp, window)
         if region is None:
             trivial += 1
